@@ -50,6 +50,8 @@ func GenOp(r *rand.Rand) OpScenario {
 	return sc
 }
 
+func timeAfterMs(ms int) <-chan time.Time { return time.After(time.Duration(ms) * time.Millisecond) }
+
 func tailOp(name string) func(ro.Observable[any]) ro.Observable[any] {
 	switch name {
 	case "StartWith":
